@@ -4,30 +4,39 @@ package main
 // segments and the row path — is indistinguishable from writing the same rows
 // one by one.
 //
-// For each case a source row group (file-backed, buffers, MultiRowGroup,
+// For each case a source row group (file-backed, buffers, MultiRowGroup — also
+// over members that compute their rows, nested, with a member without rows —,
 // MergeRowGroups of disjoint / overlapping / partially overlapping sorted
-// inputs (range views), deduplicating merges, ConvertRowGroup, a foreign
-// RowGroup implementation) is written with w.WriteRowGroup into a destination
+// inputs (range views, alone and next to whole row groups), of concatenations,
+// deduplicating merges, ConvertRowGroup, a foreign RowGroup implementation, a
+// type embedding a row group of the library and replacing its Rows()) is
+// written with w.WriteRowGroup into a destination
 // writer whose options equal the source's or differ in one attribute, and the
 // rows src.Rows() delivers are written one by one into a reference writer with
 // the same options.  Predicates: both files read back to exactly those rows,
 // in order; the destination's settings are honoured in the output (codec,
 // page version, encodings, dictionary, page index, statistics, bloom filter,
 // MaxRowsPerRowGroup); the offset index of the output points at page headers;
-// wrapper semantics are observed; chunk by chunk the bloom filter (header and
-// bits) and the geospatial statistics equal the reference's; every data page
+// wrapper semantics are observed; chunk by chunk the statistics (which bounds
+// are set — an empty bound is set —, their bytes, the counts), the bloom filter
+// (header and bits) and the geospatial statistics equal the reference's — when
+// the output's row groups are not those of the reference, those of a second
+// reference flushed where the output ends its row groups; every data page
 // of a dictionary column is PLAIN exactly when the dictionary of the pages
 // before it exceeds the destination's DictionaryMaxBytes (predicates.go);
 // rows still buffered in the writer when WriteRowGroup is called end up in row
-// groups of their own; a call that fails while the copy is staged leaves no
-// trace in the file (fault.go).  Shapes with dictionary fallbacks and
+// groups of their own; a call that fails while the copy is staged or while the
+// values are written column by column leaves no trace in the file (fault.go).  Shapes with dictionary fallbacks and
 // geospatial columns: shapes.go.  Correspondence: the path taken (hook
 // counters, output row groups) equals the plan of the Coq model
 // (CopyPath/Decision.v) for the attribute vector derived from the source's
 // metadata and the destination's options; the pages of a destination flushing
 // after every WriteRowValues call equal the model's batches
 // (CopyPath/Batches.v); the offset index of copied chunks equals the model's
-// re-based locations (CopyPath/Splice.v).
+// re-based locations (CopyPath/Splice.v); the bloom filters of row groups
+// written column-wise have the size of the model's sizing rule for the declared
+// (exact / upper bound) and delivered value counts of the source chunks
+// (CopyPath/Filters.v).
 
 import (
 	"bytes"
@@ -58,7 +67,7 @@ func main() { core.Main("C11", run, replay) }
 
 type c11Case struct {
 	Gen    gen.Case `json:"gen"`
-	Shape  string   `json:"shape"`            // "" (generated schema) | "sorted" | "repeated" | "dict" | "geo"
+	Shape  string   `json:"shape"`            // "" (generated schema) | "sorted" | "repeated" | "dict" | "geo" | "edge"
 	Src    string   `json:"src"`              // see sources
 	Dst    string   `json:"dst"`              // see dstFor
 	Switch string   `json:"switch,omitempty"` // "" | nocopy | noreencode | none
@@ -71,10 +80,11 @@ type c11Case struct {
 	Fault   int `json:"fault,omitempty"` // fault scenario: 1 + the column whose page index cannot be read
 	FaultOI bool `json:"fault_oi,omitempty"` // the offset index (else the column index) is unreadable
 	After   string `json:"after,omitempty"` // fault scenario: what is written after the failed call: rows | rowgroup
+	FaultAt string `json:"fault_at,omitempty"` // fault scenario: "" the page index of the column (copy being staged) | "pages" its pages (column-wise write) | "pack" (column-wise packing of two segments)
 }
 
-var srcKinds = []string{"file", "buffer", "genericbuffer", "multi", "multi-mixed", "convert-add", "convert-first", "convert-drop", "foreign", "foreign-plain"}
-var sortedSrcKinds = []string{"file", "merge-disjoint", "merge-overlap", "merge-dedup", "dedup", "merge-nosort", "multi", "foreign"}
+var srcKinds = []string{"file", "buffer", "genericbuffer", "multi", "multi-mixed", "multi-wrapped", "convert-add", "convert-first", "convert-drop", "foreign", "foreign-plain", "foreign-embed"}
+var sortedSrcKinds = []string{"file", "merge-disjoint", "merge-overlap", "merge-dedup", "dedup", "merge-nosort", "merge-multi", "multi", "multi-wrapped", "foreign"}
 var dstKinds = []string{"same", "codec", "nocodec", "version", "encoding", "colenc", "dictmax", "dictmore", "dictless", "stats", "bloom", "bloomsize", "bloomoff", "maxrows", "sorting", "encrypt", "pagebuf", "indexlimit"}
 
 // dstOpts: the writer options of a destination (or source) file.
@@ -310,6 +320,53 @@ func (f *foreignRG) Rows() parquet.Rows {
 	return &sliceRows{rows: rows, schema: f.inner.Schema(), err: err}
 }
 
+// Types that embed a row group of the library and replace its Rows(): the
+// embedded value's methods (the unexported marker of the chunk-level fast paths
+// included) are promoted, the rows are not those of the column chunks.
+type embedBuffer struct{ *parquet.Buffer }
+type embedGeneric struct{ *parquet.GenericBuffer[any] }
+type embedFile struct{ *parquet.FileRowGroup }
+
+func reversedRows(inner parquet.Rows, schema *parquet.Schema) parquet.Rows {
+	rows, err := readAll(inner)
+	for i, j := 0, len(rows)-1; i < j; i, j = i+1, j-1 {
+		rows[i], rows[j] = rows[j], rows[i]
+	}
+	return &sliceRows{rows: rows, schema: schema, err: err}
+}
+
+func (e *embedBuffer) Rows() parquet.Rows  { return reversedRows(e.Buffer.Rows(), e.Buffer.Schema()) }
+func (e *embedGeneric) Rows() parquet.Rows { return reversedRows(e.GenericBuffer.Rows(), e.GenericBuffer.Schema()) }
+func (e *embedFile) Rows() parquet.Rows    { return reversedRows(e.FileRowGroup.Rows(), e.FileRowGroup.Schema()) }
+
+// embedded wraps rg (a *Buffer, *GenericBuffer[any] or *FileRowGroup) in the embedding type.
+func embedded(rg parquet.RowGroup) parquet.RowGroup {
+	switch r := rg.(type) {
+	case *parquet.Buffer:
+		return &embedBuffer{r}
+	case *parquet.GenericBuffer[any]:
+		return &embedGeneric{r}
+	case *parquet.FileRowGroup:
+		return &embedFile{r}
+	}
+	return &foreignRG{inner: rg, reverse: true}
+}
+
+// innerOf: the row group a foreign wrapper of the harness wraps
+func innerOf(rg parquet.RowGroup) parquet.RowGroup {
+	switch r := rg.(type) {
+	case *foreignRG:
+		return r.inner
+	case *embedBuffer:
+		return r.Buffer
+	case *embedGeneric:
+		return r.GenericBuffer
+	case *embedFile:
+		return r.FileRowGroup
+	}
+	return rg
+}
+
 type sliceRows struct {
 	rows   []parquet.Row
 	pos    int
@@ -486,7 +543,7 @@ func build(cs c11Case) (*built, error) {
 			b.srcOpts.BloomBits = 10
 		}
 		b.srcOpts.Bloom = false
-	case "dict", "geo":
+	case "dict", "geo", "edge":
 		g := cs.Gen.Build() // only the options and the history are used
 		history = g.History
 		b.srcOpts = dstOpts{Options: g.Opts}
@@ -511,6 +568,9 @@ func build(cs c11Case) (*built, error) {
 			} else if b.srcOpts.PageBuffer > 1024 {
 				b.srcOpts.PageBuffer = 256
 			}
+		} else if cs.Shape == "edge" {
+			b.srcRoot = edgeRoot()
+			b.rows = edgeRows(cs)
 		} else {
 			b.srcRoot = geoRoot()
 			b.rows = geoRows(cs)
@@ -528,7 +588,7 @@ func build(cs c11Case) (*built, error) {
 			b.sortKey = []string{"k"}
 			b.srcOpts.Sorting = true
 			b.srcOpts.MaxRows = 0
-			if cs.Src == "merge-partial" {
+			if cs.Src == "merge-partial" || cs.Src == "merge-mixed" {
 				b.srcOpts.PageBuffer = 1024 // several pages per chunk: the merge planner cuts at page boundaries
 			}
 		} else {
@@ -643,6 +703,23 @@ func build(cs c11Case) (*built, error) {
 			}
 			inputs = mkInputs(ks)
 			b.mk = merge(sortingOpt(false))
+		case "merge-mixed":
+			// two long inputs that overlap around their boundary, a short input before them and/or one
+			// after them that overlaps nothing: the planner's segments mix whole row groups with
+			// row-range views of the lone stretches, and writeSegmentsPacked packs a whole row group with
+			// the view next to it (in both orders)
+			long := int64(n) * 2 / 5
+			short := int64(n) - 2*long
+			var ks [][]int64
+			if parts != 3 {
+				ks = append(ks, seqKeys(-short/2-5, short/2, 1))
+			}
+			ks = append(ks, seqKeys(0, long, 1), seqKeys(long-long/8, long, 1))
+			if parts != 2 {
+				ks = append(ks, seqKeys(2*long+5, short-short/2, 1))
+			}
+			inputs = mkInputs(ks)
+			b.mk = merge(sortingOpt(false))
 		case "merge-dedup":
 			// overlapping inputs with equal keys, duplicates dropped
 			var ks [][]int64
@@ -692,6 +769,71 @@ func build(cs c11Case) (*built, error) {
 					return nil, err
 				}
 				return []parquet.RowGroup{parquet.MultiRowGroup(in...)}, nil
+			}
+		case "multi-wrapped":
+			// MultiRowGroup over a deduplicating merge of one input, an overlapping merge of two, a file
+			// row group, a foreign implementation: members whose rows are not their column chunks
+			dup := seqKeys(0, per, 1)
+			for i := 1; i < len(dup); i += 3 {
+				dup[i] = dup[i-1]
+			}
+			inputs = mkInputs([][]int64{dup, seqKeys(per+5, per, 2), seqKeys(per+6, per, 2), seqKeys(3*per+10, per, 1), seqKeys(4*per+20, per, 1)})
+			b.mk = func() ([]parquet.RowGroup, error) {
+				in, err := inputs()
+				if err != nil || len(in) != 5 {
+					return nil, err
+				}
+				dd, err := parquet.MergeRowGroups(in[:1], sortingOpt(true))
+				if err != nil {
+					return nil, fmt.Errorf("MergeRowGroups: %w", err)
+				}
+				ov, err := parquet.MergeRowGroups(in[1:3], sortingOpt(false))
+				if err != nil {
+					return nil, fmt.Errorf("MergeRowGroups: %w", err)
+				}
+				members := []parquet.RowGroup{dd, ov, in[3], &foreignRG{inner: in[4], reverse: true}}
+				// the seed rotates the members: every kind comes first for some seed
+				r := posMod(cs.Gen.Seed, len(members))
+				members = append(members[r:], members[:r]...)
+				return []parquet.RowGroup{parquet.MultiRowGroup(members[:2+posMod(cs.Gen.Seed/4, 3)]...)}, nil
+			}
+		case "merge-multi":
+			// the inputs of the merge are concatenations: two consecutive sorted files (some seeds: with a
+			// member without rows before or after them, or nested in a second concatenation) and a file
+			// that overlaps both, lies above both, below both or inside one of them; the keys straddle zero
+			base := -per
+			other := seqKeys(base+per/2, per, 2)
+			switch posMod(cs.Gen.Seed/4, 5) {
+			case 1:
+				other = seqKeys(base+2*per+20, per, 1)
+			case 2:
+				other = seqKeys(base-per-20, per, 1)
+			case 3:
+				other = seqKeys(base+per/4, per/2+1, 1) // inside the first file: negative keys
+			case 4:
+				other = seqKeys(base+per+5+per/4, per/2+1, 1) // inside the second file: positive keys
+			}
+			inputs = mkInputs([][]int64{seqKeys(base, per, 1), seqKeys(base+per+5, per, 1), other})
+			b.mk = func() ([]parquet.RowGroup, error) {
+				in, err := inputs()
+				if err != nil || len(in) != 3 {
+					return nil, err
+				}
+				empty := parquet.NewBuffer(schemaOf(b.srcRoot), parquet.SortingRowGroupConfig(parquet.SortingColumns(parquet.Ascending("k"))))
+				members := []parquet.RowGroup{in[0], in[1]}
+				switch posMod(cs.Gen.Seed, 4) {
+				case 1:
+					members = []parquet.RowGroup{empty, in[0], in[1]}
+				case 2:
+					members = []parquet.RowGroup{in[0], in[1], empty}
+				case 3:
+					members = []parquet.RowGroup{parquet.MultiRowGroup(in[0]), in[1]}
+				}
+				m, err := parquet.MergeRowGroups([]parquet.RowGroup{parquet.MultiRowGroup(members...), in[2]}, sortingOpt(false))
+				if err != nil {
+					return nil, fmt.Errorf("MergeRowGroups: %w", err)
+				}
+				return []parquet.RowGroup{m}, nil
 			}
 		case "foreign":
 			inputs = mkInputs([][]int64{seqKeys(0, int64(n), 1)})
@@ -787,6 +929,102 @@ func build(cs c11Case) (*built, error) {
 			return out, nil
 		}
 		b.wantKind = "C"
+	case "foreign-embed":
+		// a type of the application embedding *Buffer, *GenericBuffer or *FileRowGroup and reversing Rows()
+		rgs, err := b.addFile(b.rows, history)
+		b.mk = func() ([]parquet.RowGroup, error) {
+			if err != nil {
+				return nil, err
+			}
+			switch posMod(cs.Gen.Seed, 3) {
+			case 0:
+				var out []parquet.RowGroup
+				for _, rg := range rgs {
+					out = append(out, embedded(rg))
+				}
+				return out, nil
+			default:
+				rg, err := b.buffer(b.rows, posMod(cs.Gen.Seed, 3) == 1)
+				if err != nil {
+					return nil, err
+				}
+				return []parquet.RowGroup{embedded(rg)}, nil
+			}
+		}
+		b.wantKind = "X"
+	case "multi-wrapped":
+		// MultiRowGroup over members some of which compute their rows (foreign implementations reversing
+		// them, embedding types), nested concatenations, and (some seeds) a member without rows
+		type member struct {
+			kind int
+			rgs  []parquet.RowGroup
+			rows []parquet.Row
+		}
+		var members []member
+		var ferr error
+		for i, part := range splitRows(b.rows, parts+1) {
+			m := member{kind: posMod(cs.Gen.Seed/7+int64(i)*3, 6), rows: part}
+			switch m.kind {
+			case 0, 1, 2: // a file row group: plain, behind a foreign wrapper, behind an embedding type
+				m.rgs, ferr = b.addFile(part, nil)
+			case 3: // a nested concatenation of two files
+				for _, half := range splitRows(part, 2) {
+					rgs, err := b.addFile(half, nil)
+					if err != nil {
+						ferr = err
+					}
+					m.rgs = append(m.rgs, rgs...)
+				}
+			}
+			if ferr != nil {
+				break
+			}
+			members = append(members, m)
+		}
+		b.mk = func() ([]parquet.RowGroup, error) {
+			if ferr != nil {
+				return nil, ferr
+			}
+			var all []parquet.RowGroup
+			for i, m := range members {
+				switch m.kind {
+				case 0:
+					all = append(all, m.rgs...)
+				case 1:
+					for _, rg := range m.rgs {
+						all = append(all, &foreignRG{inner: rg, reverse: true})
+					}
+				case 2:
+					for _, rg := range m.rgs {
+						all = append(all, embedded(rg))
+					}
+				case 3:
+					if len(m.rgs) > 0 {
+						all = append(all, parquet.MultiRowGroup(m.rgs...))
+					}
+				default: // 4: a buffer, 5: a buffer behind an embedding type
+					rg, err := b.buffer(m.rows, i%2 == 1)
+					if err != nil {
+						return nil, err
+					}
+					if m.kind == 5 {
+						rg = embedded(rg)
+					}
+					all = append(all, rg)
+				}
+				if posMod(cs.Gen.Seed, 5) == 0 && i == 0 {
+					rg, err := b.buffer(nil, false) // a member without rows
+					if err != nil {
+						return nil, err
+					}
+					all = append(all, rg)
+				}
+			}
+			if len(all) == 0 {
+				return nil, fmt.Errorf("skip: no members")
+			}
+			return []parquet.RowGroup{parquet.MultiRowGroup(all...)}, nil
+		}
 	case "foreign", "foreign-plain":
 		rgs, err := b.addFile(b.rows, history)
 		b.mk = func() ([]parquet.RowGroup, error) {
@@ -1273,10 +1511,56 @@ func check(c *core.Ctx, cs c11Case) (bucket string, nontrivial bool) {
 			violation(c, "harness-foreign", "the foreign row group does not deliver the reversed rows", cs)
 			return bucket, false
 		}
+	case "foreign-embed":
+		var inner []parquet.Row
+		for _, rg := range srcs {
+			r, _ := readAll(innerOf(rg).Rows())
+			for i, j := 0, len(r)-1; i < j; i, j = i+1, j-1 {
+				r[i], r[j] = r[j], r[i]
+			}
+			inner = append(inner, r...)
+		}
+		if strings.Join(canonRows(inner), "\n") != strings.Join(canonRows(want), "\n") {
+			violation(c, "harness-foreign", "the embedding row group does not deliver the reversed rows", cs)
+			return bucket, false
+		}
 	case "dedup", "merge-dedup", "merge-dedup-disjoint":
 		for i := 1; i < len(want); i++ {
 			if want[i][0].Int64() == want[i-1][0].Int64() {
 				violation(c, "dedup-not-applied-by-rows", fmt.Sprintf("%s: Rows() of a deduplicating merge delivers key %d twice", bucket, want[i][0].Int64()), cs)
+				return bucket, false
+			}
+		}
+	}
+
+	// a sorted merge delivers its rows in the order of the key
+	if cs.Shape == "sorted" && strings.HasPrefix(cs.Src, "merge-") && cs.Src != "merge-nosort" {
+		for i := 1; i < len(want); i++ {
+			if want[i][0].Int64() < want[i-1][0].Int64() {
+				violation(c, "merge-rows-unsorted", fmt.Sprintf("%s: Rows() of the merge delivers key %d after key %d (row %d)", bucket, want[i][0].Int64(), want[i-1][0].Int64(), i), cs)
+				return bucket, false
+			}
+		}
+	}
+	// the rows of a concatenation are the rows of its members, each read through its own Rows()
+	for _, rg := range srcs {
+		if kind, segs := kindOf(rg); len(srcs) == 1 && (kind == "M" || kind == "S0") && len(segs) > 0 {
+			var cat []parquet.Row
+			for _, s := range segs {
+				r, err := readAll(s.Rows())
+				if err != nil {
+					violation(c, "source-read-error", fmt.Sprintf("%s: reading the rows of a member of the source failed: %v", bucket, err), cs)
+					return bucket, false
+				}
+				cat = append(cat, r...)
+			}
+			cc, cw := canonRows(cat), canonRows(want)
+			if strings.Join(cc, "\n") != strings.Join(cw, "\n") {
+				i := 0
+				for i < len(cc) && i < len(cw) && cc[i] == cw[i] {
+					i++
+				}
+				violation(c, "concatenation-bypasses-member-rows", fmt.Sprintf("%s: Rows() of the %d-member concatenation delivers %d rows, its members' Rows() deliver %d; first difference at row %d", bucket, len(segs), len(cw), len(cc), i), cs)
 				return bucket, false
 			}
 		}
@@ -1353,6 +1637,11 @@ func check(c *core.Ctx, cs c11Case) (bucket string, nontrivial bool) {
 		kind    string
 		nodes   []string
 		fuel    int
+		// for the sizing of bloom filters (CopyPath/Filters.v): the batches of writeSegmentsPacked and,
+		// per written unit (the row group itself, or each of its segments) and column, exact.declared.delivered
+		batches []int
+		units   [][]string
+		nested  bool
 	}
 	var plans []planned
 	fresh, err := b.mk()
@@ -1375,6 +1664,22 @@ func check(c *core.Ctx, cs c11Case) (bucket string, nontrivial bool) {
 			}
 			p.copies, _ = strconv.ParseInt(ans[1], 10, 64)
 			p.reenc, _ = strconv.ParseInt(ans[2], 10, 64)
+			if dst.BloomBits > 0 && !dst.Encrypt && (p.reenc > 0) {
+				units := []parquet.RowGroup{rg}
+				if pk := c.Ask(fmt.Sprintf("c11.packs %s %s %s", swToken(cs.Switch), wTok, strings.Join(nodes, ";"))); pk != "_" {
+					_, units = kindOf(rg)
+					for _, t := range strings.Split(pk, ",") {
+						n, _ := strconv.Atoi(t)
+						p.batches = append(p.batches, n)
+					}
+				}
+				for _, u := range units {
+					if _, inner := kindOf(u); len(inner) > 0 {
+						p.nested = true
+					}
+					p.units = append(p.units, chunkCounts(u))
+				}
+			}
 		}
 		plans = append(plans, p)
 	}
@@ -1446,7 +1751,7 @@ func check(c *core.Ctx, cs c11Case) (bucket string, nontrivial bool) {
 			if cw[i] != cg[i] {
 				class := "rows-differ"
 				switch {
-				case strings.HasPrefix(cs.Src, "foreign"):
+				case strings.HasPrefix(cs.Src, "foreign"), cs.Src == "multi-wrapped":
 					class = "foreign-rows-bypassed"
 				case strings.HasPrefix(cs.Src, "convert"):
 					class = "conversion-bypassed"
@@ -1488,6 +1793,47 @@ func check(c *core.Ctx, cs c11Case) (bucket string, nontrivial bool) {
 	if samePartition {
 		for g := range md.RowGroups {
 			samePartition = samePartition && md.RowGroups[g].NumRows == ref.Metadata().RowGroups[g].NumRows
+		}
+	}
+	// the file the chunks are compared with: the reference when it has the output's row groups, else
+	// the same rows written one by one with a Flush where the output ends a row group ("only page
+	// boundaries and row-group partitioning below the configured maximum may differ": for the
+	// partition the output chose, every chunk holds the rows of the reference's chunk)
+	cmpRef, cmpData := ref, refBuf.Bytes()
+	if !samePartition {
+		var total int64
+		ends := map[int64]bool{}
+		for _, rgm := range md.RowGroups {
+			total += rgm.NumRows
+			ends[total] = true
+		}
+		if total == int64(len(want)) {
+			var abuf bytes.Buffer
+			aw := mkWriter(&abuf)
+			aerr := error(nil)
+			for i, r := range want {
+				if ends[int64(i)] && aerr == nil {
+					aerr = aw.Flush()
+				}
+				if aerr == nil {
+					_, aerr = aw.WriteRows([]parquet.Row{r.Clone()})
+				}
+			}
+			if aerr == nil {
+				aerr = aw.Close()
+			}
+			if aerr == nil {
+				if af, err := openFile(abuf.Bytes(), dst.Encrypt); err == nil && len(af.Metadata().RowGroups) == len(md.RowGroups) {
+					samePartition = true
+					for g := range md.RowGroups {
+						samePartition = samePartition && md.RowGroups[g].NumRows == af.Metadata().RowGroups[g].NumRows
+					}
+					if samePartition {
+						cmpRef, cmpData = af, abuf.Bytes()
+						alignedRefs++
+					}
+				}
+			}
 		}
 	}
 	for g, rgm := range md.RowGroups {
@@ -1551,12 +1897,13 @@ func check(c *core.Ctx, cs c11Case) (bucket string, nontrivial bool) {
 				}
 			}
 			if samePartition {
-				rs := ref.Metadata().RowGroups[g].Columns[ci].MetaData.Statistics
-				if (len(rs.MinValue) > 0) != (len(m.Statistics.MinValue) > 0) || (len(rs.MaxValue) > 0) != (len(m.Statistics.MaxValue) > 0) || rs.NullCount != m.Statistics.NullCount {
-					violation(c, "statistics-differ", fmt.Sprintf("%s: statistics min=%x max=%x nulls=%d, the same rows written one by one give min=%x max=%x nulls=%d (paths %v)", where, m.Statistics.MinValue, m.Statistics.MaxValue, m.Statistics.NullCount, rs.MinValue, rs.MaxValue, rs.NullCount, implPaths), cs)
+				rm := &cmpRef.Metadata().RowGroups[g].Columns[ci].MetaData
+				// chunk statistics: the same fields set (an empty bound is a bound: min_value = "" is not an
+				// absent min_value), the same bytes, the same counts
+				if ss, rs := statsText(m.Statistics, d.typ), statsText(rm.Statistics, d.typ); ss != rs {
+					violation(c, "statistics-differ:"+pathOf(implPaths), fmt.Sprintf("%s: statistics {%s}, the same rows written one by one give {%s} (paths %v)", where, ss, rs, implPaths), cs)
 					ok = false
 				}
-				rm := &ref.Metadata().RowGroups[g].Columns[ci].MetaData
 				if gs, rgs := geoStatsText(m.GeospatialStatistics), geoStatsText(rm.GeospatialStatistics); gs != rgs {
 					violation(c, "geospatial-statistics-differ", fmt.Sprintf("%s: geospatial statistics %s, the same rows written one by one give %s (paths %v)", where, gs, rgs, implPaths), cs)
 					ok = false
@@ -1564,7 +1911,7 @@ func check(c *core.Ctx, cs c11Case) (bucket string, nontrivial bool) {
 				if !dst.Encrypt && m.BloomFilterOffset != 0 && rm.BloomFilterOffset != 0 {
 					// same rows in the chunk: the row path's filter, bit for bit
 					oh, ob, oerr := bloomRaw(outBuf.Bytes(), &m)
-					rh, rb, rerr := bloomRaw(refBuf.Bytes(), rm)
+					rh, rb, rerr := bloomRaw(cmpData, rm)
 					switch {
 					case oerr != nil || rerr != nil:
 						violation(c, "bloom-filter-unreadable", fmt.Sprintf("%s: bloom filter: output %v, reference %v (paths %v)", where, oerr, rerr, implPaths), cs)
@@ -1750,6 +2097,62 @@ func check(c *core.Ctx, cs c11Case) (bucket string, nontrivial bool) {
 					coqBoolCh(swToken(cs.Switch)[0]), coqBoolCh(swToken(cs.Switch)[1]), core.CoqBool(dst.Encrypt), maxRows, len(paths), coqTree(&ns), plans[0].fuel, npend, strings.Join(gs, "; ")))
 			}
 		}
+		// row groups written column-wise: the bloom filter of every column without dictionary has the
+		// size of the model's sizing rule (Filters.v) for the declared (exact or upper bound) and
+		// delivered value counts of the source chunks
+		if exact {
+			var lv [][2]int
+			leafLevels(b.root, 0, 0, &lv)
+			g := pendGroups
+			for _, p := range plans {
+				batches := p.batches
+				if batches == nil {
+					batches = []int{1}
+				}
+				usable := len(p.units) > 0 && !p.nested && len(batches) == len(p.actions)
+				u := 0
+				for bi, a := range p.actions {
+					j := strings.IndexByte(a, ':')
+					if j < 0 || a[j+1:] == "0" {
+						if usable {
+							u += batches[bi]
+						}
+						continue
+					}
+					if usable && g < len(md.RowGroups) && u+batches[bi] <= len(p.units) && (a[0] == 'P' || a[0] == 'R') {
+						for ci := range md.RowGroups[g].Columns {
+							m := md.RowGroups[g].Columns[ci].MetaData
+							if ci >= len(dcols) || ci >= len(lv) || dcols[ci].dict || m.BloomFilterOffset == 0 {
+								continue
+							}
+							var chunks []string
+							for _, unit := range p.units[u : u+batches[bi]] {
+								if ci < len(unit) {
+									chunks = append(chunks, unit[ci])
+								}
+							}
+							req := fmt.Sprintf("c11.packfilter %x %s", dst.BloomBits, strings.Join(chunks, ","))
+							if a[0] == 'R' && len(chunks) == 1 {
+								req = fmt.Sprintf("c11.rgfilter %x %s %s %x %s", dst.BloomBits, b01(lv[ci][0] > 0), a[j+1:], maxRows, chunks[0])
+							}
+							_, bits, err := bloomRaw(outBuf.Bytes(), &m)
+							if err != nil {
+								continue
+							}
+							if ans := c.Ask(req); ans != fmt.Sprintf("%x", len(bits)) {
+								mismatch(c, "corr:C11.filter-size", fmt.Sprintf("output row group %d column %d: %s", g, ci, req), fmt.Sprintf("%x", len(bits)), ans, cs)
+								return bucket, true
+							}
+							filterSizes++
+						}
+					}
+					if usable {
+						u += batches[bi]
+					}
+					g++
+				}
+			}
+		}
 		// copied chunks: the offset index is the source's, re-based (Splice.v)
 		if len(plans) == len(fresh) {
 			g := pendGroups
@@ -1774,6 +2177,8 @@ func check(c *core.Ctx, cs c11Case) (bucket string, nontrivial bool) {
 		}
 	}
 	if os.Getenv("C11_DEBUG") != "" {
+		oj, _ := json.Marshal(dst)
+		fmt.Fprintf(os.Stderr, "DEBUG %s destination options %s schema %s\n", bucket, oj, dstRoot.Text())
 		for i, p := range plans {
 			fmt.Fprintf(os.Stderr, "DEBUG %s call %d: returned %d impl %s model %v req %s\n", bucket, i, rowsPerCall[i], implPaths[i], p.actions, core.Trunc(p.req, 3000))
 		}
@@ -1987,6 +2392,12 @@ func checkBatches(c *core.Ctx, cs c11Case) bool {
 
 var vmBatches []string
 
+// cases whose chunks were compared with a reference written for the output's own row groups
+var alignedRefs int
+
+// bloom filters whose size was compared with the model's sizing rule
+var filterSizes int
+
 // the class of the first failure reported by the check in progress: the
 // shrinkers keep a smaller case only when it fails in the same way
 var failClass string
@@ -2035,7 +2446,17 @@ func runCase(c *core.Ctx, cs c11Case, sample bool) {
 			}
 			cs = t
 		}
-		for i := 0; i < 40 && cs.Gen.NRows > 1; i++ {
+		// between the last size that fails and its half (which does not): bisection, then single steps
+		for lo, i := cs.Gen.NRows/2, 0; i < 14 && cs.Gen.NRows-lo > 1; i++ {
+			t := cs
+			t.Gen.NRows = (lo + cs.Gen.NRows) / 2
+			if fails(t) {
+				cs = t
+			} else {
+				lo = t.Gen.NRows
+			}
+		}
+		for i := 0; i < 10 && cs.Gen.NRows > 1; i++ {
 			t := cs
 			t.Gen.NRows--
 			if !fails(t) {
@@ -2116,7 +2537,7 @@ func tmark(i int) {
 }
 
 func run(c *core.Ctx) {
-	c.Res.Rule = "source row groups {file-backed (generated schemas/options/Write-Flush histories), Buffer, GenericBuffer, MultiRowGroup of files and buffers, MergeRowGroups of sorted inputs (disjoint, overlapping, partially overlapping with range views, with and without DropDuplicatedRows, unsorted), the deduplicating wrapper, ConvertRowGroup to a schema with an added/dropped column, a foreign RowGroup implementation reversing the rows} x destination options {equal to the source's, or differing in one of codec, page version, default encoding, column encoding, dictionary limit (none / larger / smaller), page statistics, bloom filter present/absent/size, MaxRowsPerRowGroup, sorting, encryption, page buffer size, column index size limit} x switches; each written with WriteRowGroup and, row by row, into a reference writer. Added shapes: dictionary columns of every kind (byte array, 32/64-bit, fixed length, double, below a repeated node) with 2..1000 distinct values arriving through the chunk or cycling, source DictionaryMaxBytes in {none, 8, 64, 300, 2000} (chunks with RLE_DICTIONARY pages followed by PLAIN pages) x destination limit larger / none / smaller, bloom filters on and off; GEOMETRY / GEOGRAPHY columns (optional, required, repeated; WKB points, line strings, polygons, multi-points in XY/XYZ/XYM/XYZM, empty geometries, bytes that are not WKB). Histories: 1..40 rows written with WriteRows and still buffered when WriteRowGroup is called (every source kind, segmented ones whose first batch packs several segments included); a call of WriteRowGroup that fails while the verbatim copy is staged (source opened with SkipPageIndex through a ReaderAt that refuses the column index or the offset index of one column) followed by rows written one by one or a healthy row group. Non-trivial = at least 2 rows (fault histories: the call failed while staging); distinct by the JSON of the case."
+	c.Res.Rule = "source row groups {file-backed (generated schemas/options/Write-Flush histories), Buffer, GenericBuffer, MultiRowGroup of files and buffers, MergeRowGroups of sorted inputs (disjoint, overlapping, partially overlapping with range views, with and without DropDuplicatedRows, unsorted), the deduplicating wrapper, ConvertRowGroup to a schema with an added/dropped column, a foreign RowGroup implementation reversing the rows} x destination options {equal to the source's, or differing in one of codec, page version, default encoding, column encoding, dictionary limit (none / larger / smaller), page statistics, bloom filter present/absent/size, MaxRowsPerRowGroup, sorting, encryption, page buffer size, column index size limit} x switches; each written with WriteRowGroup and, row by row, into a reference writer. Added shapes: dictionary columns of every kind (byte array, 32/64-bit, fixed length, double, below a repeated node) with 2..1000 distinct values arriving through the chunk or cycling, source DictionaryMaxBytes in {none, 8, 64, 300, 2000} (chunks with RLE_DICTIONARY pages followed by PLAIN pages) x destination limit larger / none / smaller, bloom filters on and off; GEOMETRY / GEOGRAPHY columns (optional, required, repeated; WKB points, line strings, polygons, multi-points in XY/XYZ/XYM/XYZM, empty geometries, bytes that are not WKB). Added sources: merges whose segments mix whole row groups with row-range views (4 600..7 300 rows, several pages per chunk, bloom filters on the repeated and the optional leaf among the destinations), merges of concatenations (a member without rows first or last, nested, the other input overlapping / above / below / inside), MultiRowGroup over foreign, embedding, deduplicating and merged members, types embedding *Buffer / *GenericBuffer / *FileRowGroup that reverse Rows(); shape edge: chunk bounds at the edge of the type (empty strings as minimum and as both bounds, NaNs, signed zeros, infinities, all-null, all-zero fixed length) x every source kind. Chunk statistics are compared field by field (set / unset, bytes, counts; a zero FLOAT/DOUBLE bound without its sign) with the row path's, for the output's own row groups. Histories: 1..40 rows written with WriteRows and still buffered when WriteRowGroup is called (every source kind, segmented ones whose first batch packs several segments included); a call of WriteRowGroup that fails while the verbatim copy is staged (source opened with SkipPageIndex through a ReaderAt that refuses the column index or the offset index of one column) or while the values are written column by column (the ReaderAt refuses the pages of one column: one row group into another codec, or two segments packed), followed by rows written one by one or a healthy row group. Non-trivial = at least 2 rows (fault histories: the call failed while staging); distinct by the JSON of the case."
 	codecs := []string{"none", "snappy", "gzip", "zstd"}
 
 	// corpus first: the defect repaired by bdd71f3 (repeated column, rows of 100+ values,
@@ -2152,6 +2573,16 @@ func run(c *core.Ctx) {
 			cs.Switch = "norefine" // VerifSetDisableMergeRefinement: no range views, the overlapping merge is read through Rows()
 		}
 		runCase(c, cs, false)
+	}
+	// whole row groups next to range views: packs mixing exact and inexact value counts (the sorted
+	// shape has a repeated and an optional leaf; "bloom" / "bloomsize" put a filter on every leaf)
+	mixedDst := []string{"bloom", "same", "bloomsize", "codec", "bloom", "version", "bloom", "pagebuf", "encrypt", "maxrows"}
+	for i := 0; i < c.N(10, 30); i++ {
+		cs := c11Case{Gen: gen.Case{Seed: c.Seed*31 + int64(950+i), NRows: 4600 + 450*(i%7), MaxDepth: 1, MaxFields: 1, Codecs: []string{"snappy"}}, Shape: "sorted", Src: "merge-mixed", Dst: mixedDst[i%len(mixedDst)], Parts: 2 + i%3}
+		if i%5 == 3 {
+			cs.Pending = 1 + c.Rng.Intn(30)
+		}
+		runCase(c, cs, i == 0)
 	}
 
 	tmark(0)
@@ -2198,6 +2629,21 @@ func run(c *core.Ctx) {
 		}
 		runCase(c, cs, i == 0)
 	}
+	// chunk bounds at the edge of the type (empty strings, NaN, signed zeros, all null): statistics of the
+	// output chunk == the row path's, field by field
+	edgeDst := []string{"same", "same", "same", "codec", "version", "stats", "pagebuf", "maxrows", "bloom", "encoding", "indexlimit", "sorting"}
+	edgeSrc := []string{"file", "file", "file", "multi", "multi-mixed", "buffer", "genericbuffer", "foreign-plain", "convert-add"}
+	for i := 0; i < c.N(70, 500); i++ {
+		cs := c11Case{Gen: gen.Case{Seed: c.Seed*86028121 + int64(i), NRows: []int{1, 2, 7, 60, 200}[c.Rng.Intn(5)], MaxDepth: 1, MaxFields: 1, Codecs: codecs, NullBias: c.Rng.Intn(9)}, Shape: "edge",
+			Src: edgeSrc[c.Rng.Intn(len(edgeSrc))], Dst: edgeDst[c.Rng.Intn(len(edgeDst))], Parts: 2 + c.Rng.Intn(2)}
+		if i < len(edgeSrc) {
+			cs.Src, cs.Dst = edgeSrc[i], "same" // every source kind once with equal options
+		}
+		if c.Rng.Intn(6) == 0 {
+			cs.Pending = 1 + c.Rng.Intn(10)
+		}
+		runCase(c, cs, i == 0)
+	}
 	tmark(3)
 	// rows still buffered in the writer when WriteRowGroup is called: every source kind
 	for i, src := range srcKinds {
@@ -2212,12 +2658,13 @@ func run(c *core.Ctx) {
 	}
 	tmark(4)
 	// a call that fails while the copy is staged, then further writes
-	for i := 0; i < c.N(70, 400); i++ {
+	for i := 0; i < c.N(120, 600); i++ {
 		cs := c11Case{Gen: gen.Case{Seed: c.Seed*49979687 + int64(i), NRows: []int{5, 40, 130}[c.Rng.Intn(3)], MaxDepth: 1 + c.Rng.Intn(2), MaxFields: 2 + c.Rng.Intn(4), Codecs: codecs, NullBias: c.Rng.Intn(8)},
 			Shape: []string{"", "", "", "geo", "dict"}[c.Rng.Intn(5)], Src: "file", Dst: "same", Fault: 1 + c.Rng.Intn(6), FaultOI: c.Rng.Intn(2) == 0, After: []string{"rows", "rowgroup"}[c.Rng.Intn(2)]}
 		if c.Rng.Intn(3) == 0 {
 			cs.Pending = 1 + c.Rng.Intn(10)
 		}
+		cs.FaultAt = []string{"", "", "pages", "pack"}[c.Rng.Intn(4)]
 		runCase(c, cs, i == 0)
 	}
 
@@ -2264,6 +2711,7 @@ func run(c *core.Ctx) {
 		runBatches(c, cs)
 	}
 
+	c.Note("%s", fmt.Sprintf("%d cases whose output row groups differ from the reference's were compared chunk by chunk with a second reference flushed where the output ends its row groups; %d bloom filters of row groups written column-wise had the size of the model's sizing rule (CopyPath/Filters.v)", alignedRefs, filterSizes))
 	// a sample of the cases re-evaluated inside coqc
 	c.Vm("From Coq Require Import List Arith Bool NArith.\nFrom PQ Require Import CopyPath.Batches CopyPath.Decision CopyPath.Groups.\nImport ListNotations.")
 	c.Vm("Definition cases : list (bool * list nat * list nat * list nat) := [\n  " + strings.Join(vmBatches, ";\n  ") + "].")
